@@ -230,6 +230,10 @@ func (m *Migrator) setupBeforeRestorer(database db.KeyValueStore, oldestBlockKep
 	if err := wipeStorageHistoryBuckets(batch); err != nil {
 		return fmt.Errorf("wiping storage history buckets: %w", err)
 	}
+	// Everything from the cutoff up is staged: a stager token is truthful again.
+	if err := batch.Delete(restagingMarkerKey); err != nil {
+		return fmt.Errorf("deleting restaging marker: %w", err)
+	}
 	header, err := core.GetBlockHeaderByNumber(database, oldestBlockKept-uint64(1))
 	if err != nil {
 		return fmt.Errorf("getting block header at %d: %w", oldestBlockKept-1, err)
@@ -271,11 +275,28 @@ func (m *Migrator) runStager(
 		// (scratch wiped) and died before the runner recorded it. Without the staged copies the
 		// blocks below the token must be staged again, or setupBeforeRestorer wipes their
 		// only copy.
-		empty, err := scratchSpaceEmpty(database)
+		// Once that is found out it has to stay found out: this run fills the scratch space again
+		// from the cutoff, and if it dies half-way the next one would see staged copies, trust the
+		// token and wipe the live history of the blocks between the cutoff and the token, which
+		// have not been staged again yet. The marker is written before anything is staged and
+		// goes away together with the history wipe in setupBeforeRestorer.
+		restaging, err := database.Has(restagingMarkerKey)
 		if err != nil {
-			return nil, false, fmt.Errorf("checking scratch space: %w", err)
+			return nil, false, fmt.Errorf("checking restaging marker: %w", err)
 		}
-		if empty {
+		if !restaging {
+			empty, err := scratchSpaceEmpty(database)
+			if err != nil {
+				return nil, false, fmt.Errorf("checking scratch space: %w", err)
+			}
+			if empty {
+				if err := database.Put(restagingMarkerKey, []byte{}); err != nil {
+					return nil, false, fmt.Errorf("writing restaging marker: %w", err)
+				}
+				restaging = true
+			}
+		}
+		if restaging {
 			m.stagerProgress = oldestBlockKept
 		}
 	}
